@@ -18,7 +18,15 @@ RunCtx makeCtx(const std::string &tag) {
     RunCtx c;
     c.scratch = makeScratchDir(tag);
     if (const char *t = getenv("VERIF_TIER")) c.tier = std::string(t) == "thorough" ? 1 : 0;
-    if (const char *f = getenv("VERIF_OPEN_FINDINGS")) { std::istringstream is(f); std::string w; while (is >> w) c.openFindings.insert(w); }
+    if (const char *f = getenv("VERIF_OPEN_FINDINGS")) {
+        std::istringstream is(f); std::string w;
+        while (is >> w) {
+            size_t b = w.find('!');
+            std::string id = w.substr(0, b);
+            c.openFindings.insert(id);
+            while (b != std::string::npos) { size_t e = w.find('!', b + 1); c.notExcludedFor[id].insert(w.substr(b + 1, e == std::string::npos ? std::string::npos : e - b - 1)); b = e; }
+        }
+    }
     return c;
 }
 } // namespace vf
